@@ -229,3 +229,62 @@ Qed.
 Example addrs_equal_counts_duplicates :
   fst (fst (addrs_equal [1;1;2] [1;2;2])) = false /\ fst (fst (addrs_equal [2;1;1] [1;2;1])) = true.
 Proof. vm_compute. split; reflexivity. Qed.
+
+(* ---------------------------------------------------------------- *)
+(* StringsToMultiaddrs / ParsePeers                                   *)
+
+Definition is_none {A} (o : option A) : bool := match o with None => true | Some _ => false end.
+
+Theorem strings_to_maddrs_spec_proved :
+  (forall ms : list N, strings_to_maddrs (map Some ms) = (ms, false)) /\
+  (forall l, snd (strings_to_maddrs l) = true <-> In None l) /\
+  (forall l i, In i (fst (strings_to_maddrs l)) <-> In (Some i) l).
+Proof.
+  split; [|split].
+  - intro ms. unfold strings_to_maddrs. f_equal.
+    + induction ms as [|x ms IH]; [reflexivity|]. cbn [map flat_map app]. rewrite IH. reflexivity.
+    + induction ms as [|x ms IH]; [reflexivity|]. cbn [map existsb orb]. exact IH.
+  - intro l. unfold strings_to_maddrs. cbn [snd]. rewrite existsb_exists. split.
+    + intros [o [Hin Ho]]. destruct o; [discriminate|exact Hin].
+    + intro H. exists None. auto.
+  - intros l i. unfold strings_to_maddrs. cbn [fst]. rewrite in_flat_map. split.
+    + intros [o [Hin Ho]]. destruct o as [j|]; [|destruct Ho]. destruct Ho as [->|[]]. exact Hin.
+    + intro H. exists (Some i). split; [exact H|left; reflexivity].
+Qed.
+
+Definition bad_peer_item (o : option (option N * option N)) : bool :=
+  match o with None => true | Some (None, _) => true | Some (Some _, _) => false end.
+
+Lemma parse_peers_go_ok l : forall acc,
+  existsb bad_peer_item l = false -> exists r, parse_peers_go l acc = Ok r.
+Proof.
+  induction l as [|o l IH]; intros acc H; cbn [parse_peers_go].
+  - eexists. reflexivity.
+  - cbn [existsb] in H. apply orb_false_iff in H as [H1 H2]. destruct o as [[[p|] t]|]; try discriminate. apply IH, H2.
+Qed.
+Lemma parse_peers_go_bad l : forall acc,
+  existsb bad_peer_item l = true -> exists c, parse_peers_go l acc = Err c.
+Proof.
+  induction l as [|o l IH]; intros acc H; cbn [parse_peers_go]; [discriminate|].
+  cbn [existsb] in H. destruct o as [[[p|] t]|]; try (eexists; reflexivity). cbn [bad_peer_item orb] in H. apply IH, H.
+Qed.
+
+(* ParsePeers fails exactly when some string is not a multiaddr or has no /p2p component *)
+Lemma none_is_bad l :
+  existsb (fun o : option (option N * option N) => match o with None => true | Some _ => false end) l = true ->
+  existsb bad_peer_item l = true.
+Proof.
+  rewrite !existsb_exists. intros [o [Hin Ho]]. exists o. split; [exact Hin|]. destruct o; [discriminate|reflexivity].
+Qed.
+
+Theorem parse_peers_err_iff_proved l :
+  (exists c, parse_peers l = Err c) <-> existsb bad_peer_item l = true.
+Proof.
+  unfold parse_peers. split.
+  - intros [c H]. destruct (existsb bad_peer_item l) eqn:E; [reflexivity|]. exfalso.
+    destruct (existsb (fun o => match o with None => true | Some _ => false end) l) eqn:En.
+    + apply none_is_bad in En. congruence.
+    + destruct (parse_peers_go_ok l [] E) as [r Hr]. congruence.
+  - intro H. destruct (existsb (fun o => match o with None => true | Some _ => false end) l); [eexists; reflexivity|].
+    apply parse_peers_go_bad, H.
+Qed.
